@@ -1362,6 +1362,39 @@ def solver_for(c, timeout_ms=60000, with_axioms=True):
     return s
 
 
+def check_lazy(c, bad, per=30, budget_s=120, per_check_ms=20000):
+    """Lazy instantiation of the law instances: start from the linear-size subset, add the instances the
+    current model violates (at most `per` per round) and ask again.  `unsat` with a subset of the axioms is
+    `unsat` with all of them; `sat` is returned only for a model that satisfies EVERY instance, i.e. it means
+    what the full query's `sat` means.  -> (result, solver)"""
+    import time as _t
+
+    t0 = _t.time()
+    all_ax = list(axioms(c))
+    s = z3.Solver()
+    s.set("timeout", per_check_ms)
+    s.add(c.assume)
+    s.add(c.side)
+    s.add(c.pc)
+    s.add(light_axioms(c))
+    s.add(z3.Or(bad))
+    while _t.time() - t0 < budget_s:
+        r = str(s.check())
+        if r != "sat":
+            return r, s
+        m = s.model()
+        viol = []
+        for a in all_ax:
+            if z3.is_false(m.eval(a, model_completion=True)):
+                viol.append(a)
+                if len(viol) >= per:
+                    break
+        if not viol:
+            return "sat", s
+        s.add(viol)
+    return "unknown", s
+
+
 def neq(a, b):
     """z3 condition: the two exact scalars differ"""
     if isinstance(a, C) or isinstance(b, C):
